@@ -18,7 +18,7 @@ import (
 	"verif/internal/wx"
 )
 
-var suite = vrt.NewSuite("C05", "(path recipe, data tree): expressions are built through the public constructors from 1-5 fragments (root, at, bracket, child, nth with indexes -8..8, wildcard, descent, union with mixed/duplicate members, slice with bounds -9..9/unbounded and steps -3..3 incl. 0, filters with nested sub-paths and the fixed-semantics operators), each kind in first, inner and last position; data trees have arrays of length 0-6 and maps over a small key pool, as simple and as gen values. plus exhaustive matrices: filter operands (17 shapes on either side of 6 comparisons), filter values (23 scalars against 23 constants under 6 comparisons, element or member, either side) and descents that start from several elements at once. Get's result must equal the reference evaluator's selection: as a multiset always, as a sequence when the order is defined (no fan-out over a map with >=2 members, no descent). Non-trivial = reference result non-empty, or a slice/nth/union bound interacts with the array length (negative, out of range, empty range, step != 1); distinct = distinct (path, data)")
+var suite = vrt.NewSuite("C05", "(path recipe, data tree): expressions are built through the public constructors from 1-5 fragments (root, at, bracket, child, nth with indexes -8..8, wildcard, descent, union with mixed/duplicate members, slice with bounds -9..9/unbounded and steps -3..3 incl. 0, filters with nested sub-paths and the fixed-semantics operators), each kind in first, inner and last position; data trees have arrays of length 0-6 and maps over a small key pool, as simple and as gen values. plus exhaustive matrices: filter operands (17 shapes on either side of 6 comparisons), filter values (23 scalars against 23 constants under 6 comparisons, element or member, either side) descents that start from several elements at once, and every slice with small bounds and steps on arrays of 0-5 elements as last and as inner fragment. Get's result must equal the reference evaluator's selection: as a multiset always, as a sequence when the order is defined (no fan-out over a map with >=2 members, no descent). Non-trivial = reference result non-empty, or a slice/nth/union bound interacts with the array length (negative, out of range, empty range, step != 1); distinct = distinct (path, data)")
 
 type Case struct {
 	Path jpx.Path `json:"path"`
@@ -59,6 +59,46 @@ func Run(cs Case, c *vrt.Ctx) {
 			pos = "last"
 		}
 		c.Class("frag:" + f.K + ":" + pos)
+	}
+	if res.DontCare == "trailing-bare-descent" {
+		// a descent with nothing selecting after it: what the statement leaves open is whether a
+		// scalar the descent starts from is itself selected. Every container it starts from and
+		// every location below one is selected once, whichever way that is read.
+		c.Class("trailing-descent(open:scalar starts)")
+		var in any = data
+		if cs.Gen {
+			if g := alt.Generify(data, keepAll); g != nil {
+				in = g
+			}
+		}
+		x := cs.Path.Build()
+		var got []any
+		if pv, stack := vrt.Catch(func() { got = x.Get(in) }); pv != nil {
+			c.Fail("panic", "jp.Expr.Get", fmt.Sprintf("%v at %s; path %s data %s", pv, stack, cs.Path, canon.String(data, canon.Value)), tagsOf(res, cs)...)
+			return
+		}
+		left := map[string]int{}
+		for _, g := range canonList(got) {
+			left[g]++
+		}
+		for _, w := range want {
+			left[w]--
+		}
+		for _, sv := range res.TrailScalars {
+			if k := canon.String(sv, canon.Value); left[k] > 0 {
+				left[k]--
+			}
+		}
+		for k, n := range left {
+			if n != 0 {
+				c.Fail("wrong-selection", "jp.Expr.Get", fmt.Sprintf("path %s (%s) on %s: got %v want %v (and optionally the scalar starts %v): %s is there %+d times too often", cs.Path, x.String(), canon.String(data, canon.Value), canonList(got), want, canonList(res.TrailScalars), k, n), tagsOf(res, cs)...)
+				return
+			}
+		}
+		if len(want) > 0 {
+			c.NonTrivial()
+		}
+		return
 	}
 	if res.DontCare != "" {
 		c.DontCare(res.DontCare)
@@ -297,6 +337,64 @@ func TestEnumDescentAfter(t *testing.T) {
 		}
 	}
 	suite.AddExtra("descent_after_matrix_cases", int64(n))
+}
+
+// TestEnumSlices: every slice with bounds -4..4 (or left out) and steps -3..3 (or left out) on
+// arrays of 0..5 elements, as the last fragment and in the middle of the path (followed by a child,
+// an index, a wildcard, another slice), below the root and one level down, on simple and gen data.
+// The helper that finds the last selected index for a slice in the middle of a path is code of its
+// own (sliceLast), with a branch per step sign and guards per empty range.
+func TestEnumSlices(t *testing.T) {
+	lo, hi, maxLen := -4, 4, 5
+	if vrt.Thorough() {
+		lo, hi, maxLen = -7, 7, 7
+	}
+	var slices [][]int
+	slices = append(slices, nil)
+	for a := lo; a <= hi; a++ {
+		slices = append(slices, []int{a})
+		ends := []int{jpx.MaxEnd}
+		for b := lo; b <= hi; b++ {
+			ends = append(ends, b)
+		}
+		for _, b := range ends {
+			slices = append(slices, []int{a, b})
+			for st := -3; st <= 3; st++ {
+				slices = append(slices, []int{a, b, st})
+			}
+		}
+	}
+	tails := [][]jpx.Frag{nil, {{K: "child", Key: "a"}}, {{K: "nth", N: 0}}, {{K: "nth", N: -1}}, {{K: "wild"}}, {{K: "slice", S: []int{0, 1}}}}
+	n := 0
+	for size := 0; size <= maxLen; size++ {
+		arr := make([]any, size)
+		for i := range arr {
+			arr[i] = map[string]any{"a": int64(i)}
+			if i%3 == 2 {
+				arr[i] = []any{int64(i), int64(i + 10)}
+			}
+		}
+		for _, nested := range []bool{false, true} {
+			var data any = arr
+			head := jpx.Path{{K: "root"}}
+			if nested {
+				data = map[string]any{"k": arr, "other": "x"}
+				head = jpx.Path{{K: "root"}, {K: "child", Key: "k"}}
+			}
+			enc := wx.Enc(data)
+			for _, sl := range slices {
+				for _, tail := range tails {
+					for _, gen := range []bool{false, true} {
+						p := append(append(append(jpx.Path{}, head...), jpx.Frag{K: "slice", S: sl}), tail...)
+						vrt.Eval(suite, "get", Case{Path: p, Data: enc, Gen: gen}, Run)
+						n++
+					}
+				}
+			}
+		}
+	}
+	suite.AddExtra("slice_matrix_cases", int64(n))
+	suite.Extra("slice_matrix_exhaustive_over", fmt.Sprintf("arrays of 0..%d elements x slices with bounds %d..%d or left out and steps -3..3 or left out x {last, followed by child / index / negative index / wildcard / slice} x {at the root, one level down} x {simple, gen}", maxLen, lo, hi))
 }
 
 func TestPropRandom(t *testing.T) {
